@@ -2,7 +2,7 @@
    Theorems only; proofs are in Proofs/. *)
 From Coq Require Import List NArith Bool Ascii.
 From FV Require Import Scope Engine EngineContracts TableOk ProgramLevel GenOk Table03 Table08
-                       SplitLine SplitLineLaws.
+                       SplitLine SplitLineLaws ReplaceMap ReplaceMapLaws ReplaceMapGen.
 Import ListNotations.
 
 (* Statements: when the parse does not go through the "program without PROGRAM statement" fall-back,
@@ -83,3 +83,22 @@ Example C02_example_splitquote :
 Proof. vm_compute. reflexivity. Qed.
 Goal True. idtac "ASSUMPTIONS-OF C02_example_splitquote". Abort.
 Print Assumptions C02_example_splitquote.
+
+(* string_replace_map / StringReplaceDict (the tokenisation every statement matcher relies on, and its
+   inverse): for EVERY line, cut into plain text and delimited groups, replacing the groups by keys --
+   identical contents sharing a key -- and restoring with the returned map gives the line back.  The
+   look-up variant of the live code is probed on every run. *)
+Theorem C02_replace_map_restores_every_line :
+  forall (wrap : ReplaceMap.text -> ReplaceMap.text) l,
+    let '(o, m) := string_replace_map wrap by_item_live l in restore m o = Some l.
+Proof. exact string_replace_map_lossless. Qed.
+Goal True. idtac "ASSUMPTIONS-OF C02_replace_map_restores_every_line". Abort.
+Print Assumptions C02_replace_map_restores_every_line.
+
+(* the other variant (reverse map consulted with the delimited item: the code before commit c40fb6f)
+   is refuted: after a group with content "(n)", the group "(n)" is restored as "((n))" *)
+Theorem C02_replace_map_by_item_refuted :
+  exists l, let '(o, m) := string_replace_map paren true l in restore m o <> Some l.
+Proof. exact by_item_variant_refuted. Qed.
+Goal True. idtac "ASSUMPTIONS-OF C02_replace_map_by_item_refuted". Abort.
+Print Assumptions C02_replace_map_by_item_refuted.
